@@ -235,11 +235,13 @@ func DuplicateWithIndex[T comparable](slice []T) map[T]int {
 // Merge merges the first slice with the other slices defined as variadic parameter.
 func Merge[T any](s []T, params ...[]T) []T {
 	merged := make([]T, 0, len(s))
+	// Copy the first slice as well: appending to it directly would write
+	// into its spare capacity, which still belongs to the caller.
+	merged = append(merged, s...)
 
 	for i := 0; i < len(params); i++ {
 		merged = append(merged, params[i]...)
 	}
-	merged = append(s, merged...)
 
 	return merged
 }
